@@ -768,6 +768,7 @@ package netty
 // per load/store anywhere in the repository).
 //@ property C12
 //@ field channel.* constructed_by newChannelWith
+//@ field channel.* covered
 //@ field channel.id immutable newChannelWith
 //@ field channel.ctx immutable newChannelWith
 //@ field channel.cancel immutable newChannelWith
@@ -787,10 +788,12 @@ package netty
 //@ field channel.attachment unprotected
 
 //@ field channelHolder.* constructed_by NewChannelHolder
+//@ field channelHolder.* covered
 //@ field channelHolder.channels guarded_by mutex
 //@ field channelHolder.mutex syncvalue
 
 //@ field readIdleHandler.* constructed_by ReadIdleHandler
+//@ field readIdleHandler.* covered
 //@ lockwrapper (*readIdleHandler).withLock mutex w
 //@ lockwrapper (*readIdleHandler).withReadLock mutex r
 //@ field readIdleHandler.idleTime immutable ReadIdleHandler
@@ -799,6 +802,7 @@ package netty
 //@ field readIdleHandler.readTimer guarded_by mutex
 //@ field readIdleHandler.handlerCtx guarded_by mutex
 //@ field writeIdleHandler.* constructed_by WriteIdleHandler
+//@ field writeIdleHandler.* covered
 //@ lockwrapper (*writeIdleHandler).withLock mutex w
 //@ lockwrapper (*writeIdleHandler).withReadLock mutex r
 //@ field writeIdleHandler.idleTime immutable WriteIdleHandler
@@ -809,6 +813,7 @@ package netty
 
 // listener: the accept goroutine creates the acceptor, Close/Acceptor run on any goroutine
 //@ field listener.* constructed_by (*bootstrap).Listen
+//@ field listener.* covered
 //@ field listener.bs immutable (*bootstrap).Listen
 //@ field listener.url immutable (*bootstrap).Listen
 //@ field listener.option immutable (*bootstrap).Listen
@@ -820,7 +825,9 @@ package netty
 // bootstrap: configured by NewBootstrap (the options run inside it), read-only afterwards; the
 // listener registry is a sync.Map
 //@ field bootstrapOptions.* constructed_by NewBootstrap
+//@ field bootstrapOptions.* covered
 //@ field bootstrap.* constructed_by NewBootstrap
+//@ field bootstrap.* covered
 //@ field bootstrap.bootstrapOptions immutable NewBootstrap
 //@ field bootstrap.listeners syncvalue
 //@ field bootstrapOptions.bootstrapCtx immutable NewBootstrap, WithContext
